@@ -122,7 +122,8 @@ struct Run {
   bool bCancelIssued = false, bCancelReturnedInBuild = false, buildReturned = false, cancelDone = true;
   uint64_t cancelSeq = 0;
   int cancelledBuilds = 0, cancelsInFlight = 0;
-  std::map<std::string, int> lastTouch;   // produced path -> last build in which its producer's stored result may have changed
+  std::map<std::string, int> lastTouch;   // path -> last build in which the stored result behind it (producer's, or the input node's) may have changed
+  std::map<std::string, FileState> nodeSeen;   // source / discovered input -> state the last build that reached it found
   // process death during a build (C04 at build-system level)
   std::unique_ptr<simfs::FS> survivor;
   bool suppress = false;       // the observations of a build whose process "died" half way are not judged
@@ -640,6 +641,13 @@ void Run::opBuild(const Json& op) {
       }
     }
     auto rit = recs.find(c->name);
+    // the same for source and discovered inputs whose node value changed in a build that did not reach this command
+    if (rit != recs.end()) {
+      for (auto& i : c->inputs)
+        if (!desc.producer(i) && lastTouch.count(i) && lastTouch[i] > rit->second.sawBuild) soft.insert(c->name);
+      for (auto& d : rit->second.discovered)
+        if (lastTouch.count(d) && lastTouch[d] > rit->second.sawBuild) soft.insert(c->name);
+    }
     bool run = false;
     if (rit == recs.end() || !rit->second.ok) run = true;
     else if (c->allowModified) {
@@ -1016,6 +1024,21 @@ void Run::opBuild(const Json& op) {
         if (!isVirtualNode(o) && !isDirNode(o) && stateOf(o) != recs[c->name].outs[o]) touched = true;   // e.g. updated without running
     if (touched)
       for (auto& o : c->outputs) lastTouch[o] = buildNo;
+  }
+  for (const Cmd* c : order) {
+    if (c->tool != "shell") continue;
+    std::vector<std::string> nodes;
+    for (auto& i : c->inputs)
+      if (!desc.producer(i) && !isVirtualNode(i) && !isDirNode(i)) nodes.push_back(i);
+    if (recs.count(c->name))
+      for (auto& d : recs[c->name].discovered) nodes.push_back(d);
+    for (auto& n : nodes) {
+      FileState st = stateOf(n);
+      if (!nodeSeen.count(n) || nodeSeen[n] != st) {
+        nodeSeen[n] = st;
+        lastTouch[n] = buildNo;
+      }
+    }
   }
   if (ok)
     for (const Cmd* c : order)
